@@ -101,6 +101,7 @@ type SymConfig struct {
 	NoInline     map[*ssa.Function]bool   // never inline these
 	OnlyInline   map[*ssa.Function]bool   // if non-nil, inline only these
 	KeepDiamonds map[*ssa.BasicBlock]bool // CollapsePure: value-only diamonds branching at these blocks stay as separate paths
+	KeepDecided  bool                     // a float comparison with a literal that is decided by a constant known on the path still leaves its atom
 	MaxVisits    int                      // how often a block may be entered on one path (0 = 2: loops unrolled once)
 	Start        *ssa.BasicBlock          // region entry (nil = function entry)
 	Stop         map[*ssa.BasicBlock]bool // region exits
@@ -352,6 +353,31 @@ func (se *symExec) run(st *state) {
 			}
 			cond := se.val(st, fr, in.Cond)
 			if b, ok := cond.IsBoolConst(); ok {
+				// a comparison of a floating-point quantity with a literal threshold that is decided on this path because the
+				// quantity is a known constant here (a position inside the deadzone that travels in memory): the decision is
+				// kept as a path condition, so that rules which classify paths by their thresholds see it like any other
+				if se.cfg.KeepDecided {
+					condV := in.Cond
+					// `a && b` as a switch case: the condition is a phi whose edge from the block that computed b carries b
+					if phi, isPhi := condV.(*ssa.Phi); isPhi && phi.Block() == fr.block && fr.prev != nil {
+						for i, pred := range fr.block.Preds {
+							if pred == fr.prev {
+								condV = phi.Edges[i]
+							}
+						}
+					}
+					if bo, isBin := condV.(*ssa.BinOp); isBin {
+						switch bo.Op {
+						case token.LSS, token.LEQ, token.GTR, token.GEQ:
+							if _, yLit := bo.Y.(*ssa.Const); yLit && isFloatType(bo.X.Type()) {
+								if _, xLit := bo.X.(*ssa.Const); !xLit {
+									t := &Term{Op: "binop", Aux: bo.Op.String(), Args: []*Term{se.val(st, fr, bo.X), se.val(st, fr, bo.Y)}, Type: in.Cond.Type()}
+									st.atoms = append(st.atoms, Atom{Cond: t, Taken: b, Instr: in, Fn: fr.fn, Depth: fr.depth})
+								}
+							}
+						}
+					}
+				}
 				if b {
 					se.gotoBlock(fr, fr.block.Succs[0])
 				} else {
@@ -1678,6 +1704,11 @@ func allocRoot(v ssa.Value) *ssa.Alloc {
 			return nil
 		}
 	}
+}
+
+func isFloatType(t types.Type) bool {
+	b, ok := t.Underlying().(*types.Basic)
+	return ok && b.Info()&types.IsFloat != 0
 }
 
 func allocRooted(v ssa.Value) bool {
